@@ -194,6 +194,10 @@ def expand_fn(src, qual, opts, sections, tline0, notes):
             text = text.replace(s['old'], s['new'])
             notes.append({'id': s['id'], 'what': 'rewrite %r => %r (x%d)' % (s['old'], s['new'], cnt),
                           'file': src.rel, 'fn': qual})
+    if text.startswith('pub fn '):
+        # N-6: `pub fn` -> `pub(crate) fn` (visibility only: lets the contract mention crate-private spec functions)
+        text = 'pub(crate) fn ' + text[len('pub fn '):]
+        notes.append({'id': 'N-6', 'what': 'pub fn -> pub(crate) fn on %s' % qual, 'file': src.rel, 'fn': qual})
     if 'as' in opts:
         name = qual.rsplit('::', 1)[-1]
         text2 = re.sub(r'\bfn\s+' + re.escape(name) + r'\b', 'fn ' + opts['as'], text, count=1)
@@ -203,6 +207,15 @@ def expand_fn(src, qual, opts, sections, tline0, notes):
     pc = match_close(text, cls, po)
     bo = next(m.start() for m in find_code(text, cls, r'\{', pc))
     bc = match_close(text, cls, bo)
+    if 'sigonly' in opts:
+        # the function is NOT under contract here: only its signature is taken from the source, the body is
+        # replaced by a stub (its contract is an ASSUMED one and is listed as such)
+        nl = text.count('\n', bo, bc)
+        text = text[:bo] + '{ unimplemented!()' + '\n' * nl + '}'
+        lm = lm[:text.count('\n') + 1]
+        cls = classify(text)
+        bc = match_close(text, cls, bo)
+        notes.append({'id': 'D-3', 'what': 'body of %s not extracted (assumed contract)' % qual, 'file': src.rel, 'fn': qual})
     inserts = []  # (offset, [ (line_text, tline, label) ], newline_before, newline_after)
 
     def sec_lines(s):
@@ -223,6 +236,8 @@ def expand_fn(src, qual, opts, sections, tline0, notes):
         if not m:
             raise GenError('%s %s: ret= given but no return type' % (src.rel, qual))
         sig_edit = (pc + 1, bo, '%s(%s: %s)%s' % (m.group(1), opts['ret'], m.group(2).strip(), m.group(3)))
+    if 'sigonly' in opts:
+        sections = [x for x in sections if x['kind'] in ('spec', 'subst')]
     for s in sections:
         if s['kind'] == 'spec':
             inserts.append((bo, sec_lines(s)))
@@ -361,6 +376,9 @@ def expand_item(src, kind, name, sections, notes):
         st = ln.strip()
         if st.startswith('///') or st.startswith('//!'):
             continue  # D-2
+        if re.match(r'^#\[(default|must_use|allow\(.*\)|serde.*|non_exhaustive)\]$', st):
+            notes.append({'id': 'D-2', 'what': 'attribute %s dropped' % st, 'file': src.rel, 'line': base_line + i})
+            continue
         out.append((ln, {'o': 's', 'file': src.rel, 'line': base_line + i}))
     for s in sections:
         if s['kind'] in ('before', 'after'):
@@ -409,7 +427,7 @@ def generate(repo, tmpl_path, outdir, probe=None):
                 load(os.path.join(os.path.dirname(path), w[2]), external or ('external' in w[3:]), depth + 1)
             else:
                 if external and st.startswith('//@@ fn ') and 'external_body' not in st.split() and 'keep' not in st.split():
-                    ln = ln + ' external_body'
+                    ln = ln + ' external_body sigonly'
                 flat.append((ln, os.path.basename(path), k + 1, external))
     load(tmpl_path, False)
     tl = [t[0] for t in flat]
